@@ -1129,7 +1129,7 @@ func (s *Stream) decryptDataWithAAD(data []byte, frameHeader []byte) ([]byte, er
 	var aad []byte
 	if !s.finishedRecvAAD {
 		// First frame: AAD = SHA256(sent_data) + SHA256(recv_data) + frame_header
-		s.finishedRecvAAD = true
+		// (finishedRecvAAD is set below, once this frame has authenticated)
 
 		// Finalize digests if not already done
 		s.finalizeSendDigest()
@@ -1153,8 +1153,10 @@ func (s *Stream) decryptDataWithAAD(data []byte, frameHeader []byte) ([]byte, er
 		return nil, fmt.Errorf("AES-GCM decryption failed: %v", err)
 	}
 
-	// Increment counter only after successful decryption
+	// Only a frame that authenticated counts: advance the counter, and mark the
+	// first protected frame (the one bound to the handshake digests) as received.
 	s.decryptCounter++
+	s.finishedRecvAAD = true
 
 	return plaintext, nil
 }
